@@ -58,7 +58,7 @@ def r2(ctx):
     WM = "barter_data::subscriber::mapper::WebSocketSubMapper"
     m = ctx.find(name="map", self_adt=WM, trait="barter_data::subscriber::mapper::SubscriptionMapper")
     views = [v for v in common.elementwise_views(ctx, m) if any("HashMap::insert(" in c[0] for c in v["calls"])]
-    ok = len(views) == 1
+    ok = len(views) == 1 and views[0]["complete"]
     ins = [c for c in views[0]["calls"] if c[0].startswith("HashMap::insert(")] if ok else []
     ok = ok and len(ins) == 1 and ins[0][1] == "true" and \
         ins[0][0].endswith(", Identifier::id(ExchangeSub::new($x)), InstrumentData::key($x.instrument))")
